@@ -343,6 +343,25 @@ class Server:
             return self._request_aiohttp(method, target, headers, body, chunks, cut_at)
         return self._request_wsgi(method, target, headers, body)
 
+    def raw_request(self, method, target, headers, body):
+        lines = ["%s %s HTTP/1.1" % (method, target), "Host: sim"]
+        has_len = False
+        for k, v in headers or ():
+            if k.lower() == "content-length":
+                has_len = True
+            lines.append("%s: %s" % (k, v))
+        if not has_len and (body or method in ("PUT", "POST", "PROPFIND", "PROPPATCH", "REPORT", "MKCOL", "MKCALENDAR")):
+            lines.append("Content-Length: %d" % len(body))
+        head = ("\r\n".join(lines) + "\r\n\r\n").encode("latin-1")
+        return head, body
+
+    def open_conn(self, method):
+        """Low-level seam for overlapping requests (aiohttp front end)."""
+        proto = self._runner.server()
+        tr = _Transport(self.loop, method)
+        proto.connection_made(tr)
+        return proto, tr
+
     def _request_aiohttp(self, method, target, headers, body, chunks, cut_at):
         lines = ["%s %s HTTP/1.1" % (method, target), "Host: sim"]
         has_len = False
